@@ -40,6 +40,11 @@ CHECKS = {
          "Held on the executions observed; evidence lists permutations, seeds, history lengths and operation mix, fresh-vs-reused comparisons, audit events by kind and pids seen.",
          "Trusted: 'fresh object in a pristine forked process on the re-materialised disk state' as the specification of each call; messages compared after removing the project-root prefix.",
          "DESIGN.md section 4 C08"),
+
+ "C02": ("runtime monitoring: boundary trace of `thailint magic-numbers` on generated py/ts/js/rs programs whose literal occurrences (line, value, lexical form, exemption category) are known by construction; exact-multiset, allowed_numbers delta-law and max_small_integer oracles",
+         "Held on the executions observed: ints, floats, hex/octal/binary, underscore, Rust-suffixed, BigInt and unary-minus literals in assignments, calls, returns, defaults, collections, nested scopes and multi-line calls; every documented exemption; random allowed_numbers / max_small_integer; evidence counts occurrences per language and category.",
+         "Trusted: the generator's ground truth; numeric comparison of the value named in the message; '-v' with exactly one of v/-v allowed and files near the definition-module threshold are not judged.",
+         "DESIGN.md section 4 C02"),
 }
 PENDING = {}
 props = [json.loads(l) for l in open(os.path.join(HERE, "properties.jsonl"))]
